@@ -154,6 +154,8 @@ def run(tier, rep):
                "- \n", ">\n", "[x]\n\n[x]: /u\n", "| a |\n|---|\n| b |\n", "```py\nx\n```\n", "<div>\n", "a  \nb\\\nc\n"]
     docs = gen.sample(l1, 7000 if q else 100000, C.SEED, keep_short=400) + gen.sample(l2, 9000 if q else 150000, C.SEED + 1) + special * 20 \
         + gen.twins(gen.sample(l1, 1500 if q else 20000, C.SEED + 4) + gen.sample(l2, 1500 if q else 20000, C.SEED + 5), C.SEED, per_doc=1)
+    ld = [d for d in gen.docs("LD", tier, rep, wrapname="WrapD") if "~" in d]
+    docs += gen.sample(ld, 6000 if q else len(ld), C.SEED + 6) + gen.sample(gen.emphasis_sentences(rep), 1500 if q else 20000, C.SEED + 7)
     ck = [gen.cfg_key(c) for c in gen.BASE_CONFIGS] + [gen.cfg_key({"preset": "commonmark", "on": [], "off": [], "opts": [["store_labels", "T"], ["inline_definitions", "T"]]})] \
         + [gen.cfg_key({"preset": "commonmark", "on": [], "off": ["fragments_join"], "opts": []}),
            gen.cfg_key({"preset": "js-default", "on": [], "off": ["balance_pairs", "text_join"], "opts": []})] \
